@@ -169,7 +169,7 @@ def _out_owner(name, ent):
     if ".protocol_privacy." in mod:
         return "privacy"
     if ".protocol_profiles." in mod:
-        return None if type(ent).__name__ == "UnregisterIqProtocolEntity" else "profiles"
+        return "profiles"
     return None
 
 
